@@ -253,10 +253,12 @@ def main():
     reached    = 0
     cpu        = 0.0
     queries    = 0
+    z3cpu      = 0.0
 
     for kind, ob, spec, res in results:
         paths += int(res.get('paths') or 0)
         cpu   += float(res.get('cpu_s') or 0)
+        z3cpu += float(res.get('z3_s') or 0)
         st     = res.get('status')
         if kind == 'twin':
             twins_all += 1
@@ -373,6 +375,14 @@ def main():
             'paths_total'       : paths,
             'solver_queries'    : queries,
             'solver_cpu_s'      : round(cpu, 1),
+            'z3_check_cpu_s'    : round(z3cpu, 1),
+            'solver_note'       : 'solver_queries = z3 check() calls issued by '
+                                  'the symbolic execution (branch feasibility '
+                                  'and model queries) or by the direct '
+                                  'encodings; solver_cpu_s = CPU seconds of the '
+                                  'whole analysis (symbolic execution + z3), '
+                                  'z3_check_cpu_s = the part spent inside '
+                                  'check()',
             'vacuity_twins'     : twins_all,
             'vacuity_twins_ok'  : twins_ok,
             'bounds'            : {ob.name: {'params': {k: v for k, v in
@@ -394,8 +404,9 @@ def main():
             json.dump(ev, fout, indent=1, sort_keys=True, default=repr)
 
     print('%s tier=%s: %d/%d obligations discharged, %d paths, twins %d/%d, '
-          '%.1fs wall, %.1fs solver cpu'
-          % (prop, tier, n_dis, n_obl, paths, twins_ok, twins_all, wall, cpu))
+          '%.1fs wall, %.1fs solver cpu (%d z3 queries, %.1fs in z3)'
+          % (prop, tier, n_dis, n_obl, paths, twins_ok, twins_all, wall, cpu,
+             queries, z3cpu))
 
     if vio_lines:
         for line in vio_lines:
